@@ -34,7 +34,9 @@ fn main() {
         i += 1;
     }
     // panics of the code under test are caught and reported as data; keep stderr readable
-    std::panic::set_hook(Box::new(|_| {}));
+    if std::env::var("NVH_DEBUG").is_err() {
+        std::panic::set_hook(Box::new(|_| {}));
+    }
     match opts.prop.as_str() {
         "C12" => {
             let mut sink = cases::CaseSink::new("C12", "Corr.C12", &opts.out, 400);
@@ -80,6 +82,11 @@ fn main() {
             let mut sink = cases::CaseSink::new("C16", "Corr.C16", &opts.out, 200);
             props::c16::generate(&opts, &mut sink);
             sink.finish(props::c16::RULE, serde_json::json!({}));
+        }
+        "C08" => {
+            let mut sink = cases::CaseSink::new("C08", "Corr.C08 Corr.BinCorr Model.BinaryStart Model.Joins", &opts.out, 100);
+            props::c08::generate(&opts, &mut sink);
+            sink.finish(props::c08::RULE, serde_json::json!({}));
         }
         p => {
             eprintln!("unknown property {p}");
